@@ -7,6 +7,8 @@ Decided clauses (unit bookkeeping; each is a necessary condition of the identiti
       B:X*mu0*L^k H:X*L^k, J and M identically zero; Triangle J/M zero; each literal reaches a `return`
   R3  setter sync typed: BaseMagnet.magnetization / polarization setters cross-assign with a factor of dimension mu0^(+-1)
       that is the exported constant
+  R5  mask consistency: in each magnet's field function the region where J/M are kept and the region where +-J enters B/H are
+      the same mask definition
   R4  None-flow: a value returned by a validator called with allow_None=True reaches no arithmetic / norm unguarded
 Not decided: that +J/-J is applied under the right mask (same units either way); pointwise identity at surface points.
 """
@@ -165,8 +167,148 @@ def setter_sync(repo, res):
                                 f"cross-assignment types as {out!r}, expected exponents {want}: the conversion factor is not the exported mu0", st.lineno))
 
 
+def mask_consistency(repo, res):
+    """R5: inside a magnet's BHJM function the region where J (and M) is kept and the region where +-J enters B (and H) are
+    one and the same mask definition.  If they differ at any observer, B = mu0*H + J fails there."""
+    import dim_rules
+    n = 0
+    for name, kind, ldeg, modname, fname, bind in dim_rules.field_entries(repo):
+        if kind != "magnet" or "#" in name:
+            continue
+        m = repo.mod(modname)
+        fn = m.funcs[fname]
+        if fname == "BHJM_cylinder_segment_internal":
+            fn = m.funcs.get("BHJM_cylinder_segment", fn)
+        defs = {}
+        for s_ in ast.walk(fn):
+            if isinstance(s_, ast.Assign) and len(s_.targets) == 1 and isinstance(s_.targets[0], ast.Name):
+                defs.setdefault(s_.targets[0].id, []).append(s_.value)
+
+        def base_masks(e, depth=0):
+            """mask names an index expression is built from (following &, *, ~ and one level of local definitions)"""
+            out = set()
+            for x in ast.walk(e):
+                if isinstance(x, ast.Name) and ("mask" in x.id or x.id in ("out", "inside")):
+                    if depth < 3 and x.id in defs and len(defs[x.id]) == 1 and any(
+                            isinstance(y, ast.Name) and ("mask" in y.id or y.id in ("out", "inside")) for y in ast.walk(defs[x.id][0])) and \
+                            isinstance(defs[x.id][0], (ast.BinOp, ast.UnaryOp)):
+                        out |= base_masks(defs[x.id][0], depth + 1)
+                    else:
+                        out.add(x.id)
+            return out
+        zero, pm = [], []
+        for st in ast.walk(fn):
+            if isinstance(st, ast.Assign) and isinstance(st.targets[0], ast.Subscript) and ast.unparse(st.targets[0].value) == "BHJM" and \
+                    isinstance(st.value, ast.Constant) and st.value.value in (0, 0.0):
+                zero.append(st)
+            if isinstance(st, ast.AugAssign) and isinstance(st.op, (ast.Add, ast.Sub)) and isinstance(st.target, ast.Subscript) and \
+                    "pol" in ast.unparse(st.value):
+                b = st.target.value
+                while isinstance(b, ast.Subscript):
+                    b = b.value
+                if ast.unparse(b) == "BHJM":
+                    pm.append(st)
+        if not zero or not pm:
+            continue   # trimesh: J/M are built by adding the polarization under the same mask (single site)
+        n += 1
+        inside = set()
+        for st in pm:
+            sl = st.target.slice
+            inside |= base_masks(sl.elts[0] if isinstance(sl, ast.Tuple) else sl)
+        zmasks = set()
+        for st in zero:
+            zmasks |= base_masks(st.targets[0].slice)
+        # reaching definitions of the mask names at the zeroing sites and at the +-J sites must coincide
+        from flow import BaseClient, function_exits
+        at = {}
+        at_all = {}
+
+        class RD(BaseClient):
+            def call_may_raise(self, call):
+                return False
+
+            def transfer(self, st, S):
+                out = set()
+                for w in S:
+                    w = set(w)
+                    at_all.setdefault(getattr(st, "lineno", 0), set()).update(w)
+                    if any(st is z for z in zero) or any(st is p for p in pm) or isinstance(st, ast.Assign):
+                        at.setdefault(id(st), set()).update(f for f in w)
+                    if isinstance(st, ast.Assign):
+                        for t in st.targets:
+                            for x in ast.walk(t):
+                                if isinstance(x, ast.Name) and isinstance(x.ctx, ast.Store):
+                                    w = {f for f in w if f[0] != x.id}
+                                    w.add((x.id, st.lineno))
+                    out.add(frozenset(w))
+                return frozenset(out)
+        function_exits(fn, RD(), frozenset({frozenset()}))
+
+        def reaching(stmts, names):
+            r = set()
+            for st in stmts:
+                r |= {f for f in at.get(id(st), ()) if f[0] in names}
+            return r
+        defstmt = {}
+        for s_ in ast.walk(fn):
+            if isinstance(s_, ast.Assign) and len(s_.targets) == 1 and isinstance(s_.targets[0], ast.Name):
+                defstmt[(s_.targets[0].id, s_.lineno)] = s_
+
+        def is_mask(nm):
+            return "mask" in nm or nm in ("out", "inside")
+
+        def leaves(fact, depth=0):
+            """primitive (geometry) conditions a reaching mask definition is built from, following reaching definitions"""
+            st_ = defstmt.get(fact)
+            if st_ is None or depth > 8:
+                return {fact[0]}
+            names = [x.id for x in ast.walk(st_.value) if isinstance(x, ast.Name) and is_mask(x.id)]
+            if not names:
+                t = norm(st_.value)
+                others = {x.id for x in ast.walk(st_.value) if isinstance(x, ast.Name)} - {"np"}
+                # a condition on the excitation only (pol == 0 ...) does not delimit a region of space: J is zero there anyway
+                if others and all(o.startswith("pol") or o in ("polarization", "magnetization") for o in others):
+                    return set()
+                return {t}
+            out = set()
+            for nm in names:
+                for f in at.get(id(st_), ()):
+                    if f[0] == nm:
+                        out |= leaves(f, depth + 1)
+            return out
+
+        def region_at(stmts, names):
+            r = set()
+            for st_ in stmts:
+                for f in at.get(id(st_), ()):
+                    if f[0] in names:
+                        r |= leaves(f)
+            return r
+        ez = region_at(zero, zmasks)
+        ep = region_at(pm, inside)
+        # where B/H are forced to zero after +-J was applied (surface / edge special cases) J does not enter B/H either
+        first_pm = min(p_.lineno for p_ in pm)
+        kills = [k_ for k_ in ast.walk(fn) if isinstance(k_, ast.AugAssign) and isinstance(k_.op, ast.Mult) and isinstance(k_.value, ast.Constant)
+                 and k_.value.value == 0 and isinstance(k_.target, ast.Subscript) and ast.unparse(k_.target.value) == "BHJM" and k_.lineno > first_pm]
+        for k_ in kills:
+            for nm in base_masks(k_.target.slice):
+                for f in at_all.get(k_.lineno, ()):
+                    if f[0] == nm:
+                        ep |= leaves(f)
+        per_store = [region_at([z_], base_masks(z_.targets[0].slice)) for z_ in zero]
+        ok = bool(zmasks) and all(r_ == ep for r_ in per_store)
+        if not ok:
+            ez = next((r_ for r_ in per_store if r_ != ep), ez)
+        res.ob(f"R5:{fname}", ok, {"rule": "R5", "function": fname, "J/M kept where": sorted(zmasks), "+-J applied where": sorted(inside),
+                                   "region_where_J_is_kept": sorted(ez), "region_where_J_enters_B_H": sorted(ep)})
+        if not ok:
+            res.add(Finding("R5", m.rel, fname, zero[0], f"J/M are kept where {sorted(ez)} but +-J enters B/H where {sorted(ep)}: the two regions must be the same "
+                            "(else B != mu0*H + J where they differ)", zero[0].lineno))
+    res.require(n >= 4, f"R5: only {n} magnet field functions with J tails found")
+
+
 def run(repo, res, tier):
-    res.rules = ["R1 single mu0 (constant folding + bindings)", "R2 BHJM return dimensions (44 obligations)", "R3 typed setter sync", "R4 None-flow"]
+    res.rules = ["R1 single mu0 (constant folding + bindings)", "R2 BHJM return dimensions (44 obligations)", "R3 typed setter sync", "R4 None-flow", "R5 one inside-mask for J/M and for +-J"]
     scan_constants(repo, res)
     results = dim_rules.run_fields()
     res.require(len(results) >= 44, f"only {len(results)} field-function runs (expected >= 44)")
@@ -182,9 +324,10 @@ def run(repo, res, tier):
             res.add(Finding("R2", r["module"].split(".")[-1] + ".py", r["function"], f"field={r['field']} returns {r['out']}",
                             f"expected {r['expected'] or 'identically zero'} for {r['entry']} ({r['kind']})"))
     setter_sync(repo, res)
+    mask_consistency(repo, res)
     # R4 = C17/S5 restricted to the excitation setters
     c17.none_flow(repo, res, rule="R4", only_classes=("BaseMagnet", "BaseCurrent", "Dipole"))
-    if errors and not res.findings:
+    if errors and not res.new_findings():
         raise AnalysisError("construct outside the modelled fragment: " + " | ".join(errors[:3]))
     res.notes += errors
     res.assumptions += ["literal annotation: 1e-7 in magnet_cylinder_segment_Hfield stands for mu0/4pi (5e-10 relative deviation in H, self-consistent in B)",
